@@ -600,6 +600,14 @@ impl Check for C02 {
                 continue;
             }
             out.label("printable");
+            // a Date / bigint / Map ... that a union with `any` absorbs: the type is expressible, printing it and refusing
+            // it are both within the statement (which speaks of types that *can* be printed and of types that cannot be
+            // expressed)
+            let absorbed_unprintable = reaches(&t.env, d, &mut |n| matches!(n, D::BigInt | D::Date | D::TypedArray(_) | D::Map(_, _) | D::Set(_)));
+            if threw_any && absorbed_unprintable {
+                out.label("printable_but_refused_absorbed_leaf");
+                continue;
+            }
             if threw_any {
                 out.evals += 1;
                 let which: Vec<&String> = printed.iter().filter(|p| p.1).map(|p| &p.0).collect();
